@@ -419,7 +419,11 @@ func (c *Component) resolveTargetLocked(ev *events.SubscriberMutationEvent) *Ses
 func (c *Component) resolveTerminateTargetLocked(ev *events.SubscriberTerminateEvent) *SessionState {
 	if ev.Key != nil {
 		var mac net.HardwareAddr = ev.Key.MAC[:]
-		if sess := c.sessions[c.sessionKey(mac, ev.Key.SVLAN, ev.Key.CVLAN)]; sess != nil {
+		// A session on the tuple is the target only if it is the one the event
+		// names: the eviction published by addToIndexes comes back to this
+		// component, where the tuple now holds the displacing session.
+		if sess := c.sessions[c.sessionKey(mac, ev.Key.SVLAN, ev.Key.CVLAN)]; sess != nil &&
+			(ev.SessionID == "" || sess.SessionID == ev.SessionID) {
 			return sess
 		}
 	}
